@@ -63,6 +63,10 @@ func checkC13(c *Check) {
 	discoveryCacheKeyRule(c, "C13.R1")
 	discoveryWheneverConfigured(c, "C13.R1")
 	discoveryFillsEndpoints(c, "C13.R1")
+	// the configured client id, scopes, callback and endpoints are the strings the file contains (C17.R1)
+	if c.ID == "C13" {
+		importObls(c, "C17", checkC17, "C13.R2", func(o *Obligation) bool { return strings.HasPrefix(o.Key, "C17.R1/config-bytes-as-read") })
+	}
 	// … and the handler that builds the redirect is the matched filter's own (a handler cached under a chain name
 	// would send the browser to another chain's authorization endpoint with another client id and callback)
 	if pc := processInvoke(P, R); c.Anchor("C13.R1", "Handler.Process invocation in Check", pc != nil) {
